@@ -190,6 +190,16 @@ def rand_expr(rng, depth):
         return {"op": op, "a": sub(), "b": sub()}
     if op == "boost":
         return {"op": "boost", "e": sub(), "n": rng.choice([2, 3])}
+    if rng.random() < 0.4:
+        # a parenthesised group nested inside the field group: title:((a OR b) c), title:(a AND (b OR c))
+        leaf = lambda: rand_leaf_simple(rng)
+        inner = {"op": rng.choice(["or", "or", "and"]), "kids": [leaf(), leaf()]}
+        outer = {"op": "and" if inner["op"] == "or" else "or", "kids": [inner, leaf()]}
+        if rng.random() < 0.5:
+            outer["kids"].reverse()
+        if inner["op"] == "or" and rng.random() < 0.4:
+            outer = {"op": "group", "kids": outer["kids"]}
+        return {"op": "fgroup", "f": rng.choice(["title", "body"]), "e": strip_fields(outer)}
     return {"op": "fgroup", "f": rng.choice(["title", "body"]), "e": strip_fields(sub())}
 
 
